@@ -80,10 +80,10 @@ class Driver(object):
 
         class Host(object):
             # callbacks 3 and 4 are bound methods: every attribute access builds a new, equal, method object
-            def m3(self, *args, **ctx):
+            def m3(_host, *args, **ctx):
                 return closures[3](*args, **ctx)
 
-            def m4(self, *args, **ctx):
+            def m4(_host, *args, **ctx):
                 return closures[4](*args, **ctx)
         self.host = Host()
         self._closures = closures
@@ -241,7 +241,7 @@ def case_strategy():
         nm = names_of(impl)
         names = st.sampled_from([nm[0], nm[0], nm[0], nm[1], nm[1], nm[2]])
         cbid = st.integers(0, NCB - 1)
-        ctx = st.one_of(st.just([]), st.just([]), st.lists(st.tuples(st.sampled_from(['kx', 'ky']), st.integers(0, 3)), max_size=2, unique_by=lambda t: t[0]).map(lambda l: [list(t) for t in l]))
+        ctx = st.one_of(st.just([]), st.just([]), st.lists(st.tuples(st.sampled_from(['kx', 'ky', 'self', 'name', 'callback', 'args']), st.integers(0, 3)), max_size=2, unique_by=lambda t: t[0]).map(lambda l: [list(t) for t in l]))
         args = st.lists(st.integers(0, 9), max_size=2)
         sub = st.one_of(st.tuples(st.just('on'), names, cbid, ctx), st.tuples(st.just('once'), names, cbid, ctx)).map(list)
         unsub = st.one_of(st.tuples(st.just('off'), names), st.tuples(st.just('offcb'), names, cbid), st.tuples(st.just('offcb'), names, cbid)).map(list)
